@@ -18,6 +18,7 @@ type GenOpts struct {
 	Recursive   bool // self-referential structs via optional fields / containers
 	NonStrict   bool // omit requiredness on some fields, compile non-strict
 	Small       bool // fewer / smaller definitions (faster labs)
+	Hostile     bool // draw identifiers and file names from the hostile pool (Go keywords, initialisms, generated-method names, std package names)
 	BackEdges   bool // cyclic includes: later files include earlier ones and typedef their types (compile-only properties)
 	// Avoid lists defect classes the generator must not produce (known,
 	// unrepaired defects excluded by construction; each exclusion is counted
@@ -45,6 +46,12 @@ var itemStems = []string{"RED", "GREEN", "BLUE", "DARK_RED", "Cyan", "magenta", 
 var fileStems = []string{"apple", "banana", "cherry", "dates", "elder", "figs", "grape", "hazel"}
 var funcStems = []string{"getThing", "put", "list_all", "remove", "ping", "compute", "fetchURL", "do_it"}
 
+var hostileTypes = []string{"String", "Error", "ToWire", "FromWire", "Equals", "Ptr", "Type", "Value", "List_X", "ListX", "HTTPServer", "HttpServer", "Http_Server", "Foo_Bar", "FooBar", "Default_Foo", "Foo", "Foo_Values", "MarshalLogObject", "Svc_Do_Args", "Svc_Do_Result", "Svc_Do_Helper", "ThriftModule", "Map_String_String", "MapStringString", "Enum", "Struct", "Reader", "Writer", "Wire", "Stream", "Errors", "Fmt", "ID", "Id", "URL", "Url", "lowercase", "x", "X", "T", "Interface"}
+var hostileFields = []string{"error", "Error", "string", "String", "to_wire", "ToWire", "from_wire", "FromWire", "equals", "Equals", "encode", "decode", "get_x", "x", "is_set_x", "IsSetX", "GetX", "errorName", "error_name", "ErrorName", "func", "range", "chan", "interface", "go", "package", "default", "select", "ptr", "Ptr", "URL", "url", "Url", "user_id", "userId", "UserID", "userID", "v", "rhs", "w", "sr", "sw", "err", "i", "fields", "ok", "fh", "_", "__", "a_", "_a", "A", "a", "method_name", "MethodName", "envelope_type", "success", "Success", "marshal_log_object", "len", "nil", "true_", "int8", "float64", "byte", "error_"}
+var hostileItems = []string{"String", "Values", "Ptr", "A", "a", "foo_bar", "fooBar", "FOO_BAR", "FooBar", "ToWire", "Equals", "MarshalText", "func", "nil", "x", "X", "_1", "Value", "Unknown"}
+var hostileFiles = []string{"fmt", "fmt2", "fmt3", "bytes", "wire", "stream", "zapcore", "ptr", "main", "strings", "errors", "math", "base64", "thriftreflect", "multierr", "strconv", "func", "go", "x_test", "init", "internal", "vendor", "gen", "doc", "UPPER", "a.b"}
+var hostileFuncs = []string{"String", "Error", "ToWire", "func", "range", "Args", "Helper", "Result", "get", "Get", "do", "Do", "DO", "init", "main", "new", "New"}
+
 type gctx struct {
 	t      *rapid.T
 	o      *GenOpts
@@ -54,6 +61,8 @@ type gctx struct {
 	pool   []*Def // definitions visible from the current file (own + transitively? no: directly included files only)
 	svcs   []*Def
 	consts []*Def
+
+	usedTypeNames map[string]bool
 }
 
 func (g *gctx) label(s string) string { g.n++; return fmt.Sprintf("%s%d", s, g.n) }
@@ -67,6 +76,22 @@ func (g *gctx) chance(num, den int, what string) bool {
 }
 
 func pickStr(g *gctx, ss []string, what string) string {
+	if g.o.Hostile && g.chance(1, 2, what+"_h") {
+		var h []string
+		switch what {
+		case "fname":
+			h = hostileFields
+		case "item":
+			h = hostileItems
+		case "fstem":
+			h = hostileFiles
+		case "fn":
+			h = hostileFuncs
+		}
+		if h != nil {
+			return h[g.intn(0, len(h)-1, what+"_hi")]
+		}
+	}
 	return ss[g.intn(0, len(ss)-1, what)]
 }
 
@@ -131,6 +156,17 @@ func GenProgram(t *rapid.T, o *GenOpts) *Program {
 
 func (g *gctx) newTypeName() string {
 	g.n++
+	if g.o.Hostile && g.chance(1, 2, "tname_h") {
+		name := hostileTypes[g.intn(0, len(hostileTypes)-1, "tname_hi")]
+		if g.usedTypeNames == nil {
+			g.usedTypeNames = map[string]bool{}
+		}
+		if g.usedTypeNames[name] && !g.chance(1, 6, "tname_dup") {
+			name = fmt.Sprintf("%s%d", name, g.n)
+		}
+		g.usedTypeNames[name] = true
+		return name
+	}
 	return fmt.Sprintf("%s%d", typeStems[g.n%len(typeStems)], g.n)
 }
 
@@ -319,6 +355,12 @@ func (g *gctx) fieldName(used map[string]bool) string {
 			name = fmt.Sprintf("%s%d", name, g.intn(2, 9, "fsuf"))
 		}
 		gn := GoName(name)
+		if g.o.Hostile && !used["name:"+name] && g.chance(1, 4, "fcollide") {
+			// exact duplicates of Thrift names are invalid IDL; Go-name collisions are what the generator must reject
+			used[gn] = true
+			used["name:"+name] = true
+			return name
+		}
 		if !used[gn] && !used["name:"+name] {
 			used[gn] = true
 			used["name:"+name] = true
@@ -711,6 +753,9 @@ func (g *gctx) genService() *Def {
 			case 1:
 				a.Req = "optional"
 			}
+			if g.o.Annotations && g.chance(1, 4, "argannot") {
+				g.fieldAnnots(a, usedNames)
+			}
 			fn.Args = append(fn.Args, a)
 		}
 		if g.chance(1, 5, "oneway") {
@@ -727,9 +772,21 @@ func (g *gctx) genService() *Def {
 			}
 			usedT := map[string]bool{}
 			usedEIDs := map[int]bool{}
+			usedExc := map[string]bool{}
 			for j, ne := 0, g.intn(0, 2, "nexc"); j < ne && len(excs) > 0; j++ {
 				e := excs[g.intn(0, len(excs)-1, "exc")]
-				fn.Throws = append(fn.Throws, &Field{ID: g.genFieldID(usedEIDs), Name: g.fieldName(usedT), Type: &Type{K: TRef, Ref: &Ref{File: e.File, Name: e.Name}}})
+				// two exceptions of the same type cannot be told apart by the Go type switch
+				// of the generated helpers: such a function cannot be mapped to valid Go, so it
+				// belongs to the hostile pool only (must be rejected at generation time, F20)
+				if usedExc[e.File+"#"+e.Name] && !g.o.Hostile {
+					continue
+				}
+				usedExc[e.File+"#"+e.Name] = true
+				th := &Field{ID: g.genFieldID(usedEIDs), Name: g.fieldName(usedT), Type: &Type{K: TRef, Ref: &Ref{File: e.File, Name: e.Name}}}
+				if g.o.Annotations && g.chance(1, 4, "excannot") {
+					g.fieldAnnots(th, usedT)
+				}
+				fn.Throws = append(fn.Throws, th)
 			}
 		}
 		d.Funcs = append(d.Funcs, fn)
